@@ -28,6 +28,18 @@ pub struct Piece {
     /// for rule-generated boundaries: true when the exact UTC instant falls in
     /// a different Gregorian year than the rule's own year (see F7).
     pub crosses_year: bool,
+    /// for rule-generated boundaries: the rule's own year.
+    pub rule_year: i64,
+}
+
+#[derive(Clone, Debug)]
+pub struct Eff {
+    pub start: i64,
+    pub info: u32,
+    pub recorded: bool,
+    pub changing: bool,
+    pub crosses_year: bool,
+    pub rule_year: i64,
 }
 
 #[derive(Clone, Debug)]
@@ -224,14 +236,14 @@ pub fn parse_posix(s: &[u8]) -> Result<PosixTz, String> {
     let mut p = P { s, i: 0 };
     let std_abbrev = p.abbrev()?;
     // POSIX offsets are positive WEST of Greenwich.
-    let std_utoff = -p.hms(24, 2)? as i32;
+    let std_utoff = -p.hms(25, 2)? as i32;
     if p.i == s.len() {
         return Ok(PosixTz { std_abbrev, std_utoff, dst: None });
     }
     let dst_abbrev = p.abbrev()?;
     let mut dst_utoff = std_utoff + 3600;
     if !matches!(p.peek(), Some(b',') | None) {
-        dst_utoff = -p.hms(24, 2)? as i32;
+        dst_utoff = -p.hms(25, 2)? as i32;
     }
     if p.bump() != Some(b',') {
         return Err("DST without rule".into());
@@ -325,23 +337,23 @@ fn materialise_posix(
     };
     let std = intern(tz.std_info(), infos);
     if tz.dst.is_none() {
-        pieces.push(Piece { start: from, info: std, recorded: true, crosses_year: false });
+        pieces.push(Piece { start: from, info: std, recorded: true, crosses_year: false, rule_year: 0 });
         return;
     }
     let dst = intern(tz.dst_info().unwrap(), infos);
     let y0 = if from == i64::MIN { cal::MIN_YEAR - 1 } else { year_of_unix(from) - 2 };
     // All rule transitions, chronological by generation, then stable sort.
-    let mut evs: Vec<(i64, u32, bool)> = vec![];
+    let mut evs: Vec<(i64, u32, bool, i64)> = vec![];
     for y in y0..=last_year {
         let (s, e) = tz.year_transitions(y).unwrap();
         let sc = year_of_unix_safe(s) != y;
         let ec = year_of_unix_safe(e) != y;
         if s <= e {
-            evs.push((s, dst, sc));
-            evs.push((e, std, ec));
+            evs.push((s, dst, sc, y));
+            evs.push((e, std, ec, y));
         } else {
-            evs.push((e, std, ec));
-            evs.push((s, dst, sc));
+            evs.push((e, std, ec, y));
+            evs.push((s, dst, sc, y));
         }
     }
     evs.sort_by_key(|x| x.0);
@@ -358,9 +370,9 @@ fn materialise_posix(
     if k == 0 && !evs.is_empty() {
         cur = if evs[0].1 == dst { std } else { dst };
     }
-    pieces.push(Piece { start: from, info: cur, recorded: true, crosses_year: false });
+    pieces.push(Piece { start: from, info: cur, recorded: true, crosses_year: false, rule_year: 0 });
     for ev in &evs[k..] {
-        pieces.push(Piece { start: ev.0, info: ev.1, recorded: false, crosses_year: ev.2 });
+        pieces.push(Piece { start: ev.0, info: ev.1, recorded: false, crosses_year: ev.2, rule_year: ev.3 });
     }
 }
 
@@ -386,7 +398,7 @@ pub fn zone_from_posix(s: &[u8]) -> Result<Zone, String> {
 pub fn zone_fixed(utoff: i32, abbrev: &str) -> Zone {
     Zone {
         infos: vec![Info { utoff, dst: false, abbrev: abbrev.to_string() }],
-        pieces: vec![Piece { start: i64::MIN, info: 0, recorded: true, crosses_year: false }],
+        pieces: vec![Piece { start: i64::MIN, info: 0, recorded: true, crosses_year: false, rule_year: 0 }],
         n_recorded: 0,
         footer: None,
         version: 0,
@@ -526,7 +538,7 @@ pub fn zone_from_tzif(b: &[u8]) -> Result<Zone, String> {
         infos.push(inf);
         tmap.push((infos.len() - 1) as u32);
     }
-    let mut pieces = vec![Piece { start: i64::MIN, info: 0, recorded: true, crosses_year: false }];
+    let mut pieces = vec![Piece { start: i64::MIN, info: 0, recorded: true, crosses_year: false, rule_year: 0 }];
     let n = raw.times.len();
     for k in 0..n {
         let ti = raw.idx[k] as usize;
@@ -536,7 +548,7 @@ pub fn zone_from_tzif(b: &[u8]) -> Result<Zone, String> {
         if k > 0 && raw.times[k] <= raw.times[k - 1] {
             return Err("unsorted transitions".into());
         }
-        pieces.push(Piece { start: raw.times[k], info: tmap[ti], recorded: true, crosses_year: false });
+        pieces.push(Piece { start: raw.times[k], info: tmap[ti], recorded: true, crosses_year: false, rule_year: 0 });
     }
     let mut footer_s = None;
     if let Some(f) = &raw.footer {
@@ -613,6 +625,30 @@ impl Zone {
             if civil - ob >= s && civil - oa < s {
                 out.push(k);
             }
+        }
+        out
+    }
+    /// The effective breakpoint list: pieces sharing a start are collapsed to
+    /// the last one, and each entry says whether the info really changes there.
+    pub fn effective(&self) -> Vec<Eff> {
+        let mut out: Vec<Eff> = vec![];
+        let mut i = 0;
+        while i < self.pieces.len() {
+            let mut j = i;
+            let mut recorded = self.pieces[i].recorded;
+            let mut crosses = self.pieces[i].crosses_year;
+            while j + 1 < self.pieces.len() && self.pieces[j + 1].start == self.pieces[i].start {
+                j += 1;
+                recorded |= self.pieces[j].recorded;
+                crosses |= self.pieces[j].crosses_year;
+            }
+            let info = self.pieces[j].info;
+            let changing = match out.last() {
+                None => false,
+                Some(prev) => self.infos[prev.info as usize] != self.infos[info as usize],
+            };
+            out.push(Eff { start: self.pieces[i].start, info, recorded, changing, crosses_year: crosses, rule_year: self.pieces[j].rule_year });
+            i = j + 1;
         }
         out
     }
